@@ -1,8 +1,47 @@
 """C14 - cross-type numeric comparison and hashing agree with exact values."""
+import os
 import struct
+import sys
 from fractions import Fraction
 import core
 from core import hx, gen_int, gen_mag
+
+# Regenerated fragment (round 3): the constants and table-like parts of the f32 estimators (nbits <= 24, ADJUST, the bound
+# selection and the outward steps of Repr::log2_bounds, the arms of digits_ub, the hash modulus) are re-read from the
+# sources into coq/gen/XLog2Params.v when this plug-in is imported, i.e. before the proof phase of every run.  Theorem
+# C14_log2_params_tie proves the estimators rebuilt over the generated values equal to the hand-written model.  Unparseable
+# source is not an alarm: the last good copy stays (marked STALE) and the status is reported in the evidence.
+sys.path.insert(0, os.path.join(core.ROOT, "tools"))
+try:
+    import translate_c14_r3
+    LOG2_PARAMS_STATUS = translate_c14_r3.generate(core.REPO, os.path.join(core.COQ, "gen"))
+except Exception as _ex:
+    LOG2_PARAMS_STATUS = "unparsed generator-failed: %s" % str(_ex)[:200]
+
+if os.path.realpath(core.REPO) != os.path.realpath("/repo"):
+    import atexit
+
+    def _restore_params():
+        try:
+            translate_c14_r3.generate("/repo", os.path.join(core.COQ, "gen"))
+        except Exception:
+            pass
+
+    atexit.register(_restore_params)
+
+
+def extra_phase(tier, seed, exes, oracle):
+    word = LOG2_PARAMS_STATUS.split(" ", 1)[0]
+    return {
+        "evaluations": 0,
+        "hist": {"translator_c14:XLog2Params:" + word: 1},
+        "nontrivial": [],
+        "samples": [{"fragment": "coq/gen/XLog2Params.v (tools/translate_c14_r3.py from base/src/math/log.rs, integer/src/log.rs, float/src/{log,repr}.rs, */third_party/num_order.rs)",
+                     "status": LOG2_PARAMS_STATUS,
+                     "tied_by": "C14_log2_params_tie" if word == "ok" else "correspondence run only (source not parsed; last good copy marked STALE)"}],
+        "failures": [],
+    }
+
 
 ID = "C14"
 READY = True
@@ -11,38 +50,53 @@ HARNESS_BIN = "c14"
 NCASES = {"quick": 9000, "thorough": 200000}
 CASE_TIMEOUT = {"quick": 30, "thorough": 120}
 
-LEVEL_TEXT = ("Machine-checked Coq theorems: every NumOrd / AbsOrd body of the integer, float and rational crates (transcribed branch by "
-              "branch: NaN/zero tests, sign filter, infinities, bit-length or log2-estimate filter, exact comparison after scaling) returns "
-              "the order of the exact values, for all operands and for EVERY estimator that satisfies the soundness contract of "
-              "log2_bounds / digits_ub; the NumHash inputs of integers, floats and rationals equal one function of the exact value. The "
-              "transcription is tied to the code by a correspondence run over all type pairs, judged against the extracted specification.")
-LEVEL_NOTE = ("Trusted: Coq kernel, extraction + FastZ.v, zarith, harness, the transcription of the bodies (compared on every run, "
-              "asis=same/diff histogram). The f32 arithmetic inside EstimatedLog2::log2_bounds is NOT modelled: it enters as a section "
-              "variable with its contract (lower bound <= log2|x| <= upper bound); the run executes the bodies with two different "
-              "admissible estimators and requires equal answers. num-order's own hashing of primitives is compared, not modelled.")
-TECHNIQUE = "Coq proof of the transcribed comparison/hash bodies against exact-value specifications + extracted-spec correspondence run"
-RULE = ("cases = {ord, abs, hash, cmp} x every implemented (left type, right type) pair of UBig, IBig, u8..u128/usize, i8..i128/isize, f32, "
-        "f64, FBig and Repr in bases 2/3/10/16, RBig, Relaxed x value classes {equal across types, neighbours differing in the last bit / "
-        "last digit / numerator +-1, ratio 1 + 2^-k for k up to 40 (around the width of the f32 estimates), bit lengths at the filter "
-        "thresholds 24+128 and 53+1024 +-1, floats below 1/2 against 0 and +-1, exponents +-10^6, 2^40 and the ends of the isize range (2^61, 2^62, 2^63-1) where scaling is impossible, "
-        "infinities, -0.0, NaN, subnormals, MAX/MIN of every primitive, multiples of 2^127-1 in numerators, denominators and exponents "
-        "that are multiples of 127}. non-trivial = the oracle evaluated the specification on operands that are not both zero; distinct = "
-        "distinct case texts.")
+LEVEL_TEXT = ("Machine-checked Coq theorems (45 pinned): every NumOrd / AbsOrd body of the integer, float and rational crates (transcribed branch "
+              "by branch: NaN/zero tests, sign filter, infinities, bit-length or log2-estimate filter, exact comparison after scaling) returns "
+              "the order of the exact values, for all operands and for EVERY estimator that satisfies the soundness contract; the f32 "
+              "arithmetic of the library's own estimators (EstimatedLog2::log2_bounds of the unsigned integers, rationals and floats, "
+              "Repr::digits_ub; transcribed on Flocq's IEEE binary32) is PROVED to satisfy that contract modulo one assumption on libm "
+              "(f32::log2 of an integer up to 2^24 is within one f32 step of the exact value), so the bodies run with the library's "
+              "estimators return the exact order (integer parts within a double word, any exponent); the NumHash inputs of integers, "
+              "floats, rationals (denominators that are multiples of 2^127-1 included) and of the primitives (num-order's own code, "
+              "transcribed) equal one function of the exact value. The transcriptions are tied to the code by a correspondence run "
+              "judged against the extracted specification, including the bit patterns of log2_bounds.")
+LEVEL_NOTE = ("Trusted: Coq kernel, Flocq's definition of binary32, extraction + FastZ.v, zarith, harness, the transcription of the bodies "
+              "and of the estimators (compared on every run incl. the f32 bit patterns, asis=same/diff histogram; constants regenerated "
+              "from the sources, C14_log2_params_tie). ASSUMED about libm: lg_contract (one-step accuracy of f32::log2 on integers in "
+              "[1, 2^24]; satisfiable: C14_libm_contract_inhabited; checked in double precision for every value the run reports). The "
+              "multi-word estimator log2_bounds_large is modelled and compared, its enclosure is proved only in C12's real-number model; "
+              "next_up/next_down are modelled by Flocq's Bsucc/Bpred (the bit trick itself is compared, not proved).")
+TECHNIQUE = "Coq proof of the transcribed comparison/hash bodies and of the f32 estimators (Flocq binary32) against exact-value specifications + extracted-spec correspondence run"
+RULE = ("cases = {ord, abs, hash, cmp, est, ordf, absf, cmpf} x every implemented (left type, right type) pair of UBig, IBig, u8..u128/usize, "
+        "i8..i128/isize, f32, f64, FBig and Repr in bases 2/3/10/16, RBig, Relaxed x value classes {equal across types, neighbours differing "
+        "in the last bit / last digit / numerator +-1, ratio 1 + 2^-k for k up to 40 (around the width of the f32 estimates), bit lengths at "
+        "the filter thresholds 24+128 and 53+1024 +-1, floats below 1/2 against 0 and +-1, exponents +-10^6, 2^40 and the ends of the isize "
+        "range (2^61, 2^62, 2^63-1) where scaling is impossible, exact path at |e| = 3..20 million for the bases 2 and 16, infinities, -0.0, "
+        "NaN, subnormals, MAX/MIN of every primitive, multiples of 2^127-1 in numerators, denominators and exponents that are multiples of "
+        "127}; est = log2_bounds / digits_ub of one operand with the libm values it used: zero, powers of two, <= 24 bits, 24-bit prefixes "
+        "(all ones, 2^23, ties) with every shift, more than two words, float exponents around and far beyond 2^24 (where `exponent as f32` "
+        "rounds), cancellation significand ~ base^j with exponent -j, rationals with nearly equal numerator and denominator; ordf/absf/cmpf = "
+        "the comparison run on the transcribed f32 estimators. non-trivial = the oracle evaluated the specification on operands that are "
+        "not both zero; distinct = distinct case texts.")
 EXPLANATION = ("Theorems (coq/props/C14.v): for sound estimators each transcribed body equals spec_cmp / spec_abs_cmp of the exact values; "
-               "NaN gives None; the hash inputs equal spec_hash of the exact value, hence equal values of different types hash equally. "
-               "Every generated case is judged against the extracted specification, the transcribed bodies are run alongside.")
+               "NaN gives None; the library's f32 estimators are sound (C14_f32_*), hence C14_num_ord_f32 / C14_abs_ord_f32 / "
+               "C14_float_same_base_f32; the hash inputs equal spec_hash of the exact value, hence equal values of different types hash "
+               "equally, primitives included (C14_prim_int_hash, C14_prim_float_hash) and denominators that are multiples of 2^127-1 "
+               "(C14_ratio_hash_m127_reduced, C14_ratio_hash_any_form). Every generated case is judged against the extracted "
+               "specification, the transcribed bodies and estimators are run alongside (asis=same|diff).")
 TRUSTED_BASE = [
-    "Coq 8.16.1 kernel",
-    "extraction: ExtrOcamlBasic + ExtrOcamlZBigInt + coq/extract/FastZ.v directives; zarith 1.12; oracle/common.ml, oracle/driver_c14.ml",
-    "harness/src/bin/c14.rs (values moved through raw words / to_bits; a recording Hasher captures the i128 fed by num_hash)",
-    "the transcription of the Rust bodies in coq/theories/Cross/XOrdModel.v and XDispatch.v (compared with the implementation on every run)",
+    "Coq 8.16.1 kernel; Flocq 4.1 IEEE754.BinarySingleNaN as the meaning of f32 arithmetic (nearest-even +, -, *, /, conversion, successor, predecessor, truncation)",
+    "extraction: ExtrOcamlBasic + ExtrOcamlZBigInt + coq/extract/FastZ.v directives; zarith 1.12; oracle/common.ml, oracle/driver_c14.ml (incl. the double-precision check of the libm assumption and of the enclosure of log2_bounds answers)",
+    "harness/src/bin/c14.rs (values moved through raw words / to_bits; a recording Hasher captures the i128 fed by num_hash; the libm table of an operand is recomputed by the harness with f32::log2 on the arguments the std estimator uses)",
+    "the transcription of the Rust bodies in coq/theories/Cross/XOrdModel.v, XDispatch.v, XLog2Model.v (f32 estimators), XPrimHashModel.v (num-order 1.2.0 src/hash.rs) - compared with the implementation on every run; constants regenerated by tools/translate_c14_r3.py",
     "UBig/IBig comparison, shifting, multiplication and remainder behave as on Z (C01, C02, C09); FixedMersenneInt of num-modular computes in the field of 2^127-1",
 ]
 ASSUMPTIONS = [
-    "EstimatedLog2::log2_bounds and Repr::digits_ub return sound bounds (their f32 arithmetic is the subject of other checks); the theorems hold for every sound estimator",
-    "rationals have positive denominators, float bases are >= 2; exponent arithmetic is unbounded (Z) in the models - the two places where the code left the isize range were repaired (F05, F06) and exponents up to +-(2^63-1) are generated; isize::MIN itself is not (hlib::isz cannot carry it)",
-    "exact-path scaling by B^|e| is only exercised up to |e| = 10^6 (beyond that the generator keeps the operands far enough apart for the filters to decide, as the real code would otherwise try to allocate the power)",
-    "NumHash of infinities and NaN is outside the property (no exact value)",
+    "libm: f32::log2 of an integer n in [1, 2^24] is finite and its two f32 neighbours enclose log2 n (XLog2Flocq.lg_contract); everything around it in log2_bounds / digits_ub is proved; the general theorems hold for every sound estimator",
+    "the f32-estimator instance is proved for integer parts (integers, significands, numerators, denominators) below 2^(2*word bits) and exponents within the isize range; larger integer parts use log2_bounds_large, which is transcribed and compared bit for bit but whose enclosure is proved only in C12's real-number model",
+    "rationals have positive denominators, float bases are >= 2; exponent arithmetic is unbounded (Z) in the comparison models - the two places where the code left the isize range were repaired (F05, F06) and exponents up to +-(2^63-1) are generated; isize::MIN itself is not (hlib::isz cannot carry it)",
+    "exact-path scaling by B^|e| is exercised up to |e| = 10^6 in every base and up to 2*10^7 in the bases 2 and 16 (beyond that the generator keeps the operands far enough apart for the filters to decide, as the real code would otherwise try to allocate the power); the theorems have no such bound",
+    "NumHash of infinities and NaN is outside the property (no exact value); num-order's answers for them are compared with the transcription only",
 ]
 
 M127 = (1 << 127) - 1
@@ -369,6 +423,18 @@ def huge_tok(rng, kind, very=True):
     return "%s:%s:%s" % (kind, hx(sig), hx(e))
 
 
+def end_of_range(tok):
+    """a float token whose exponent was moved to the end of the isize range: Repr::new must not have to move a digit of the
+    significand into the exponent there (that overflow belongs to the constructor, not to the comparison)"""
+    f = tok.split(":")
+    base = int(f[0][1:])
+    sg = int(f[-2], 16)
+    if sg % base == 0:
+        sg += 1
+    f[-2] = hx(sg)
+    return ":".join(f)
+
+
 def gen_pair(rng, tier, ka, kb):
     r = rng.below(100)
     if r < 8:
@@ -482,6 +548,25 @@ def gen_cases(rng, tier, n):
         if k >= 100:
             out.append("est %s" % gen_est(rng, tier))
             continue
+        if k == 99 and rng.chance(1, 3 if tier == "thorough" else 12):
+            # the exact path far beyond |e| = 10^6: bases 2 and 16 scale by shifting, so equal and neighbouring values
+            # with exponents of several million can be materialised by the library and by the oracle
+            e4 = rng.choice([750001, 2500000, 5000000]) * rng.choice([1, -1])     # exponent in base 16; 4 * e4 in base 2
+            sig = rng.choice([1, 3, 5, 7, 255, rng.bits(24) | 1, rng.bits(60) | 1]) * rng.choice([1, -1])
+            ka, kb = rng.choice([("g2", "g16"), ("g16", "g2"), ("f2", "f16"), ("g2", "g2"), ("f16", "f16"), ("f2", "i"), ("f16", "q")])
+            def tk(kind, sg):
+                base = int(kind[1:]) if kind[0] in "fg" else 0
+                if base:
+                    ee = e4 if base == 16 else 4 * e4
+                    return ("%s:0:%s:%s" if kind[0] == "f" else "%s:%s:%s") % (kind, hx(sg), hx(ee))
+                if kind == "i":
+                    return "i:%s" % hx(sg << (4 * e4) if e4 > 0 else sg)
+                return "q:%s:%s" % ((hx(sg << (4 * e4)), "1") if e4 > 0 else (hx(sg), hx(1 << (-4 * e4))))
+            sb = sig + rng.choice([0, 0, 2, -2]) if sig % 2 else sig
+            if kb == "i" and e4 < 0:
+                ka, kb = "f2", "q"
+            out.append("%s %s %s" % ("ord", tk(ka, sig), tk(kb, sb)))
+            continue
         if k < 58:
             ka, kb = ord_pair(rng)
             a, b = gen_pair(rng, tier, ka, kb)
@@ -524,10 +609,10 @@ def gen_cases(rng, tier, n):
                         e2 = e1 - rng.choice([0, 1, 2, 5]) * (1 if e1 > 0 else -1)
                     f = a.split(":")
                     f[-1] = hx(e1)
-                    a = ":".join(f)
+                    a = end_of_range(":".join(f))
                     f = huge_tok(rng, kb, very=False).split(":")
                     f[-1] = hx(e2)
-                    b = ":".join(f)
+                    b = end_of_range(":".join(f))
                     if ka in FK and abs(e1 - e2) < 10:
                         out.append("%s %s %s" % (rng.choice(["abs", "cmp"]), a, b))   # NumOrd would have to scale by B^e
                         continue
